@@ -1,5 +1,6 @@
 import SspModel.Lemmas.Life
-import SspModel.Lemmas.Bridge
+import SspModel.Lemmas.Bridge.Sev
+import SspModel.Lemmas.Bridge.BHPop
 import SspModel.Generated.Tables
 /-!
 # C14 — lifetime and turn-off mass are inverse, monotone, and set the evolution rate
